@@ -120,7 +120,50 @@ Proof.
     rewrite (IH evs1 g d' fs' ms' j k); auto; try lia.
 Qed.
 
+(* no message in the DATA part: the first message() call looks at what follows *)
+Lemma pull_through term : forall n evs g d,
+  (length evs <= n)%nat -> J d evs [] [] -> only_dp evs ->
+  exists d0 d1 j, (j <= n)%nat /\ idle d0 d1 /\
+    forall k, pull (j + k) (evs ++ term) g d = pull k term g d0.
+Proof.
+  induction n as [|n IH]; intros evs g d Hn Jd DP;
+    destruct (step_through deser decompress lim e0 dir0 tr0 term evs g d [] [] Jd DP)
+      as [d' evs1 P J' D' Ln|f m fs' ms' d' evs1 Ef Em P J' D' Ln|d0 d1 _ _ Id P];
+    try discriminate; try (cbn [length] in *; lia).
+  1, 3: exists d0, d1, 0%nat; split; [lia|]; split; [exact Id|]; intros k; cbn [plus];
+        destruct k as [|k]; [reflexivity|]; rewrite !pull_S, P; reflexivity.
+  destruct (IH evs1 g d') as (d0 & d1 & j & Lj & Id & C); [lia|exact J'|exact D'|].
+  exists d0, d1, (S j). split; [lia|]. split; [exact Id|]. intros k.
+  cbn [plus]. rewrite pull_S, P. apply C.
+Qed.
+
 (* ---- what follows the DATA, read by collect ---- *)
+(* a frame over the limit, its whole prefix in the chunk that follows the DATA of the earlier
+   messages: OUT_OF_RANGE at once, whatever else that chunk and the rest of the body hold *)
+Lemma collect_oversize d0 d1 g k a b c x more rest : idle d0 d1 -> lim < BE32.un_be32 a b c x ->
+  exists d', collect (S k) (BData (0 :: a :: b :: c :: x :: more) :: rest) g d0 =
+             ([], CErr st_too_large d' rest g).
+Proof.
+  intros Id L.
+  destruct (idle_oversize deser decompress lim e0 dir0 tr0 d0 d1 g a b c x more rest Id L) as (d' & P & _).
+  exists d'. rewrite collect_S, P. reflexivity.
+Qed.
+Lemma pull_oversize d0 d1 g k a b c x more rest : idle d0 d1 -> lim < BE32.un_be32 a b c x ->
+  exists d', pull (S k) (BData (0 :: a :: b :: c :: x :: more) :: rest) g d0 =
+             Got (Item (IErr st_too_large)) d' rest g.
+Proof.
+  intros Id L.
+  destruct (idle_oversize deser decompress lim e0 dir0 tr0 d0 d1 g a b c x more rest Id L) as (d' & P & _).
+  exists d'. rewrite pull_S, P. reflexivity.
+Qed.
+Lemma collect_body_err d0 d1 g k st rest : idle d0 d1 ->
+  is_request dir0 && (st_code st =? Code_Cancelled) = false ->
+  exists d', collect (S k) (BErr st :: rest) g d0 = ([], CErr st d' rest g).
+Proof.
+  intros Id NC.
+  destruct (idle_body_err deser decompress lim e0 dir0 tr0 d0 d1 g st rest Id NC) as (d' & P & _).
+  exists d'. rewrite collect_S, P. reflexivity.
+Qed.
 Lemma collect_end d0 d1 g k : idle d0 d1 -> resp_ok dir0 tr0 ->
   collect (S k) [] g d0 = ([], CEnd d1 [] (end_poll g)).
 Proof.
@@ -487,6 +530,47 @@ Proof.
              (map plain_pair ps) ms j fuel); auto; lia.
 Qed.
 
+(* client role, streaming request, IN PROCESS (the body error reaches the server's reader as
+   such - on a real connection it becomes a stream reset: F-C06b): messages ms, then one over
+   the client's max_encoding_message_size: the handler's stream yields exactly ms, then
+   OUT_OF_RANGE; the oversized message and everything after it are not sent *)
+Theorem request_stream_over_enc_limit (cl sv : side) (sh : shape) (md : hm)
+        (src : list (Encoder.sevent msg)) (ms : list msg) (ps : list (list N)) (big : msg) (p : list N)
+        (rest : list (Encoder.item msg)) (script : list bev) (fuel : nat) :
+  plain cl -> req_streaming sh = true ->
+  Encoder.items_of src = map Encoder.IOk ms ++ Encoder.IOk big :: rest ->
+  Forall2 (encodes (cfg_of cl)) ms ps ->
+  Encoder.payload_of ser compress (cfg_of cl) big = Some p -> Encoder.limit_of (cfg_of cl) < nlen p ->
+  Forall (fun p => nlen p <= dec_limit (max_dec sv)) ps ->
+  hm_get_all md hdr_grpc_encoding = [] ->
+  carries (request_frames cl src) script ->
+  (length script + length ms + 2 <= fuel)%nat ->
+  exists qh md', request_headers cl md = Some qh /\
+    server_receive sv sh qh script None fuel =
+      SeenStream md' ms (EndErr (Encoder.st_too_large (nlen p) (Encoder.limit_of (cfg_of cl)))) /\
+    st_code (Encoder.st_too_large (nlen p) (Encoder.limit_of (cfg_of cl))) = Code_OutOfRange /\
+    forall k, Metadata.is_reserved k = false -> hm_get_all md' k = hm_get_all md k.
+Proof.
+  intros PL Hsh Hi He HP HL Hl Hmd (evs & DP & DE & ->) Hf.
+  exists (plain_request_headers md), (plain_request_headers md).
+  split; [now apply request_headers_plain|]. split; [|split; [reflexivity|apply request_headers_user]].
+  unfold Call.server_receive. rewrite recv_plain by (now rewrite request_headers_encoding). rewrite Hsh.
+  unfold Call.request_frames in *. rewrite (cfg_plain cl PL) in *.
+  set (st := Encoder.st_too_large (nlen p) (Encoder.limit_of (cfg_of cl))).
+  assert (O : outcome (cfg_of cl) (Encoder.items_of src) ms ps (Some st)).
+  { exists (Encoder.IOk big :: rest). split; [exact Hi|]. split; [exact He|].
+    exists (Encoder.IOk big), rest. split; [reflexivity|]. right. exists p. split; [exact HP|]. left. auto. }
+  destruct (err_frames (cfg_of cl) Encoder.Client src 0 ms ps st O) as [CC NDF].
+  rewrite NDF in *. rewrite CC in DE. cbn [Encoder.end_frames map bev_of_frame] in *.
+  rewrite app_length in Hf. cbn [length] in Hf.
+  pose proof (J_plain Request (max_dec sv) cl ms ps evs He Hl DE) as J0.
+  destruct (collect_through msg deser decompress _ None Request None [BErr st] _ evs (mkB 0) _ _ _ (le_n _) J0 DP)
+    as (d0 & d1 & j & Lj & Id & C).
+  replace fuel with (j + S (fuel - j - 1))%nat by lia. rewrite C.
+  destruct (collect_body_err msg deser decompress _ _ _ _ d0 d1 (mkB 0) (fuel - j - 1)%nat st [] Id eq_refl) as (d' & ->).
+  now rewrite app_nil_r.
+Qed.
+
 (* =============================== the caller's view =============================== *)
 (* the handler of a stream-response shape returned Ok(md, stream); the stream's items are, under
    any schedule, messages ms and then either the end (fin = None) or an item that ends the call
@@ -725,6 +809,128 @@ Proof.
   - cbn [Call.pull]. unfold dec_poll. rewrite P. reflexivity.
 Qed.
 
+
+(* ---- ... at ANY position: the DATA of earlier messages ms (payloads ps, each within the limit,
+   cut and delayed arbitrarily), then a chunk holding the whole prefix of an oversized frame ---- *)
+Definition delivers (lim : N) (ps : list (list N)) (ms : list msg) : Prop :=
+  Forall2 (good deser decompress lim None) (map (fun p => (0, p)) ps) ms.
+
+Lemma J_delivers dir dmax ps ms evs :
+  delivers (dec_limit dmax) ps ms -> data_of evs = concat (map (frame 0) ps) ->
+  J deser decompress (dec_limit dmax) None dir None (dec_new dir None dmax) evs (map (fun p => (0, p)) ps) ms.
+Proof.
+  intros G DE. apply (J_new deser decompress dir None dmax); [exact G|]. now rewrite DE, map_map.
+Qed.
+
+Theorem request_over_limit_at (sv : side) (sh : shape) (headers : hm) (ps : list (list N)) (ms : list msg)
+        (evs : list bev) (a b c x : N) (more : list N) (rest : list bev) (fuel : nat) :
+  hm_get_all headers hdr_grpc_encoding = [] ->
+  delivers (dec_limit (max_dec sv)) ps ms ->
+  only_dp evs -> data_of evs = concat (map (frame 0) ps) ->
+  dec_limit (max_dec sv) < BE32.un_be32 a b c x ->
+  (length evs + length ms + 2 <= fuel)%nat ->
+  server_receive sv sh headers (evs ++ BData (0 :: a :: b :: c :: x :: more) :: rest) None fuel =
+  if req_streaming sh then SeenStream headers ms (EndErr st_too_large) else SeenRejected st_too_large.
+Proof.
+  intros Hh G DP DE L Hf. unfold Call.server_receive. rewrite (recv_plain sv headers Hh).
+  pose proof (J_delivers Request (max_dec sv) ps ms evs G DE) as J0.
+  destruct (req_streaming sh).
+  - destruct (collect_through msg deser decompress _ None Request None (BData (0 :: a :: b :: c :: x :: more) :: rest) _ evs (mkB 0) _ _ _ (le_n _) J0 DP)
+      as (d0 & d1 & j & Lj & Id & C).
+    replace fuel with (j + S (fuel - j - 1))%nat by lia. rewrite C.
+    destruct (collect_oversize msg deser decompress _ _ _ _ d0 d1 (mkB 0) (fuel - j - 1)%nat a b c x more rest Id L) as (d' & ->).
+    now rewrite app_nil_r.
+  - destruct ms as [|m ms'].
+    + destruct ps; [|inversion G].
+      destruct (pull_through msg deser decompress _ None Request None (BData (0 :: a :: b :: c :: x :: more) :: rest) _ evs (mkB 0) _ (le_n _) J0 DP)
+        as (d0 & d1 & j & Lj & Id & C).
+      replace fuel with (j + S (fuel - j - 1))%nat by lia. rewrite C.
+      destruct (pull_oversize msg deser decompress _ _ _ _ d0 d1 (mkB 0) (fuel - j - 1)%nat a b c x more rest Id L) as (d' & ->).
+      reflexivity.
+    + destruct ps as [|p ps']; [inversion G|]. cbn [map] in J0. cbn [length] in Hf.
+      destruct (pull_first msg deser decompress _ None Request None (BData (0 :: a :: b :: c :: x :: more) :: rest) (length evs) evs (mkB 0) _ _ _ _ _
+                  (le_n _) J0 DP (fuel - S (length evs))%nat) as (d' & evs1 & PL & J' & D' & L').
+      replace (S (length evs) + (fuel - S (length evs)))%nat with fuel in PL by lia. rewrite PL.
+      unfold stream_trailers. replace (d_trailers d') with (@None hm) by (symmetry; apply J').
+      destruct (collect_through msg deser decompress _ None Request None (BData (0 :: a :: b :: c :: x :: more) :: rest) _ evs1 (mkB 0) _ _ _ (le_n _) J' D')
+        as (d0 & d1 & j & Lj & Id & C).
+      replace fuel with (j + S (fuel - j - 1))%nat by lia. rewrite C.
+      destruct (collect_oversize msg deser decompress _ _ _ _ d0 d1 (mkB 0) (fuel - j - 1)%nat a b c x more rest Id L) as (d'' & ->).
+      reflexivity.
+Qed.
+
+Theorem response_over_limit_at (cl : side) (sh : shape) (md : hm) (ps : list (list N)) (ms : list msg)
+        (evs : list bev) (a b c x : N) (more : list N) (rest : list bev) (fuel : nat) :
+  hm_get_all md hdr_grpc_encoding = [] ->
+  delivers (dec_limit (max_dec cl)) ps ms ->
+  only_dp evs -> data_of evs = concat (map (frame 0) ps) ->
+  dec_limit (max_dec cl) < BE32.un_be32 a b c x ->
+  (length evs + length ms + 2 <= fuel)%nat ->
+  client_call cl sh 200 (response_headers md) (evs ++ BData (0 :: a :: b :: c :: x :: more) :: rest) fuel =
+  if resp_streaming sh then CRStream (response_headers md) ms (EndErr st_too_large)
+  else match ms with
+       | [] => CRErr (with_md st_too_large (Metadata.merge [] (response_headers md)))
+       | _ :: _ => CRErr st_too_large
+       end.
+Proof.
+  intros Hh G DP DE L Hf. unfold Call.client_call, create_response.
+  rewrite recv_plain by (now rewrite response_headers_encoding).
+  rewrite response_headers_no_status.
+  pose proof (J_delivers (Response 200) (max_dec cl) ps ms evs G DE) as J0.
+  destruct (resp_streaming sh).
+  - destruct (collect_through msg deser decompress _ None (Response 200) None (BData (0 :: a :: b :: c :: x :: more) :: rest) _ evs (mkB 0) _ _ _ (le_n _) J0 DP)
+      as (d0 & d1 & j & Lj & Id & C).
+    replace fuel with (j + S (fuel - j - 1))%nat by lia. rewrite C.
+    destruct (collect_oversize msg deser decompress _ _ _ _ d0 d1 (mkB 0) (fuel - j - 1)%nat a b c x more rest Id L) as (d' & ->).
+    now rewrite app_nil_r.
+  - destruct ms as [|m ms'].
+    + destruct ps; [|inversion G].
+      destruct (pull_through msg deser decompress _ None (Response 200) None (BData (0 :: a :: b :: c :: x :: more) :: rest) _ evs (mkB 0) _ (le_n _) J0 DP)
+        as (d0 & d1 & j & Lj & Id & C).
+      replace fuel with (j + S (fuel - j - 1))%nat by lia. rewrite C.
+      destruct (pull_oversize msg deser decompress _ _ _ _ d0 d1 (mkB 0) (fuel - j - 1)%nat a b c x more rest Id L) as (d' & ->).
+      reflexivity.
+    + destruct ps as [|p ps']; [inversion G|]. cbn [map] in J0. cbn [length] in Hf.
+      destruct (pull_first msg deser decompress _ None (Response 200) None (BData (0 :: a :: b :: c :: x :: more) :: rest) (length evs) evs (mkB 0) _ _ _ _ _
+                  (le_n _) J0 DP (fuel - S (length evs))%nat) as (d' & evs1 & PL & J' & D' & L').
+      replace (S (length evs) + (fuel - S (length evs)))%nat with fuel in PL by lia. rewrite PL.
+      unfold stream_trailers. replace (d_trailers d') with (@None hm) by (symmetry; apply J').
+      destruct (collect_through msg deser decompress _ None (Response 200) None (BData (0 :: a :: b :: c :: x :: more) :: rest) _ evs1 (mkB 0) _ _ _ (le_n _) J' D')
+        as (d0 & d1 & j & Lj & Id & C).
+      replace fuel with (j + S (fuel - j - 1))%nat by lia. rewrite C.
+      destruct (collect_oversize msg deser decompress _ _ _ _ d0 d1 (mkB 0) (fuel - j - 1)%nat a b c x more rest Id L) as (d'' & ->).
+      reflexivity.
+Qed.
+
+(* ---- the successful unary response whose trailers share names with the response headers:
+   parts.merge(trailers) - per name the TRAILERS' values replace the headers' ---- *)
+Theorem unary_ok_merge (cl : side) (sh : shape) (http : N) (h t : hm) (m : msg) (p : list N)
+        (evs : list bev) (fuel : nat) :
+  resp_streaming sh = false ->
+  hm_get_all h hdr_grpc_encoding = [] -> from_header_map h = None ->
+  delivers (dec_limit (max_dec cl)) [p] [m] ->
+  only_dp evs -> data_of evs = frame 0 p ->
+  resp_ok (Response http) (Some t) ->
+  (length evs + 4 <= fuel)%nat ->
+  client_call cl sh http h (evs ++ [BTrailers t]) fuel = CRUnary (Metadata.merge h t) m /\
+  forall k, hm_get_all (Metadata.merge h t) k =
+            match hm_get_all t k with [] => hm_get_all h k | l => l end.
+Proof.
+  intros Hsh He Hs G DP DE RO Hf. split; [|intros k; apply Metadata.merge_pointwise].
+  unfold Call.client_call, create_response. rewrite (recv_plain cl h He), Hs, Hsh.
+  assert (DE' : data_of evs = concat (map (frame 0) [p])) by (cbn; now rewrite app_nil_r).
+  pose proof (J_delivers (Response http) (max_dec cl) [p] [m] evs G DE') as J0. cbn [map] in J0.
+  destruct (pull_first msg deser decompress _ None (Response http) None [BTrailers t] (length evs) evs (mkB 0) _ _ _ _ _
+              (le_n _) J0 DP (fuel - S (length evs))%nat) as (d' & evs1 & PL & J' & D' & L').
+  replace (S (length evs) + (fuel - S (length evs)))%nat with fuel in PL by lia. rewrite PL.
+  unfold stream_trailers. replace (d_trailers d') with (@None hm) by (symmetry; apply J').
+  destruct (collect_through msg deser decompress _ None (Response http) None [BTrailers t] _ evs1 (mkB 0) _ _ _ (le_n _) J' D')
+    as (d0 & d1 & j & Lj & Id & C).
+  cbn [length] in Lj.
+  replace fuel with (j + S (fuel - j - 1))%nat by lia. rewrite C.
+  rewrite (collect_trailers_ok msg deser decompress _ _ _ _ d0 d1 (mkB 0) _ t Id eq_refl RO).
+  reflexivity.
+Qed.
 End LimitProofs.
 
 (* the unary client API merges the initial metadata INTO an error it meets at the first
